@@ -37,6 +37,9 @@ class Run:
         self.inside = [False] * n   # thread has entered library code and not finished
         self.outcomes = [None] * n
         self.error = None
+        self.blocked = set()
+        self.steals = 0
+        self.started = False
         # location-based preemption points: (thread, "file.py:line", occurrence) -> thread to switch to
         self.loc_points = {(int(t), loc, int(occ)): int(to) for t, loc, occ, to in loc_points}
         self.want_locs = bool(self.loc_points) or record_locs
@@ -46,14 +49,33 @@ class Run:
 
     # ---- called from worker threads --------------------------------------------------------------
     def _wait(self, i):
+        """Block until thread i holds the baton. If the baton holder makes no progress for a while it is assumed to be
+        blocked in a real lock that a waiting thread holds (third-party code has locks of its own): the waiting thread then
+        takes the baton back; the blocked thread re-queues at its next traced line (see yield_point)."""
         ev = self.events[i]
-        if not ev.wait(30):
-            self.error = f"thread {i} starved (scheduler deadlock)"
-            raise SchedulerError(self.error)
+        waited = 0.0
+        last = (self.step, self.current)
+        while not ev.wait(0.25):
+            waited += 0.25
+            now = (self.step, self.current)
+            if now != last:
+                last, waited = now, 0.0
+                continue
+            if waited >= 1.0 and self.started and self.current != i and self.alive[self.current]:
+                self.blocked.add(self.current)
+                self.steals += 1
+                self.current = i
+                return
+            if waited >= 30:
+                self.error = f"thread {i} starved (scheduler deadlock)"
+                raise SchedulerError(self.error)
         ev.clear()
 
     def yield_point(self, i, loc=None):
-        # only the baton holder executes this
+        # only the baton holder executes this - except a thread that was assumed blocked and has come back to life
+        if self.current != i:
+            self.blocked.discard(i)
+            self._wait(i)
         self.step += 1
         self.steps_of[i] += 1
         if self.step > self.max_steps:
@@ -77,6 +99,8 @@ class Run:
     def finished(self, i):
         self.alive[i] = False
         self.inside[i] = False
+        if self.current != i and self.alive[self.current]:
+            return            # a thread that was assumed blocked finished while another one holds the baton
         for t in range(self.n):
             if self.alive[t]:
                 self.current = t
@@ -101,7 +125,7 @@ class Run:
             return local
 
         def tracer(frame, event, arg):
-            if event == "call" and frame.f_code.co_filename.startswith(prefix):
+            if event == "call" and frame.f_code.co_filename.startswith(prefix):     # prefix: str or tuple of str
                 if opcode:
                     frame.f_trace_opcodes = True
                 return local
@@ -109,16 +133,33 @@ class Run:
         return tracer
 
 
-def run_concurrently(calls, schedule, repo, opcode=False, timeout=120, loc_points=(), record_locs=False):
+def third_party_prefixes():
+    """Source directories of the third-party packages the library calls into (their Python frames can be preemption points
+    too: a race may sit in a loop that runs inside one C-level call of the library, e.g. set.update(generator))."""
+    out = []
+    for name in ("pycountry", "rstr"):
+        try:
+            mod = __import__(name)
+            out.append(os.path.dirname(os.path.abspath(mod.__file__)) + os.sep)
+        except Exception:  # noqa: BLE001
+            pass
+    return tuple(out)
+
+
+def run_concurrently(calls, schedule, repo, opcode=False, timeout=120, loc_points=(), record_locs=False, third_party=False,
+                     untraced=()):
     """calls: list of zero-argument callables. Returns (outcomes, info). outcome = ('ok', value) | ('exc', type name, str).
     schedule: [(global step, thread)]; loc_points: [(thread, 'file.py:line', occurrence, thread to switch to)]."""
     prefix = os.path.join(os.path.abspath(repo), "schwifty") + os.sep
+    if third_party:
+        prefix = (prefix,) + third_party_prefixes()
     run = Run(len(calls), schedule, prefix, opcode, loc_points=loc_points, record_locs=record_locs)
 
     def worker(i):
         try:
             run._wait(i)                      # nobody runs before the controller hands out the baton
-            sys.settrace(run.make_tracer(i))
+            if i not in untraced:             # an untraced thread runs to its end once it holds the baton (a long burst of work)
+                sys.settrace(run.make_tracer(i))
             try:
                 try:
                     run.outcomes[i] = ("ok", calls[i]())
@@ -137,6 +178,7 @@ def run_concurrently(calls, schedule, repo, opcode=False, timeout=120, loc_point
     threads = [threading.Thread(target=worker, args=(i,), daemon=True) for i in range(len(calls))]
     for t in threads:
         t.start()
+    run.started = True
     run.events[0].set()
     for t in threads:
         t.join(timeout)
@@ -144,7 +186,8 @@ def run_concurrently(calls, schedule, repo, opcode=False, timeout=120, loc_point
             raise SchedulerError("worker did not finish (deadlock in scheduler or library)")
     if run.error:
         raise SchedulerError(run.error)
-    info = {"steps": run.step, "steps_of": run.steps_of, "switches": run.switches, "locs": run.locs}
+    info = {"steps": run.step, "steps_of": run.steps_of, "switches": run.switches, "locs": run.locs, "steals": run.steals,
+            "loc_counts": dict(run.loc_counts)}
     return run.outcomes, info
 
 
@@ -154,7 +197,13 @@ def run_alone(call, repo, opcode=False):
     return out[0], info["steps"]
 
 
-def trace_locations(call, repo):
+def trace_locations(call, repo, third_party=False):
     """Distinct library locations ('file.py:line') a call passes, in order of first arrival, and its outcome."""
-    out, info = run_concurrently([call], [], repo, record_locs=True)
+    out, info = run_concurrently([call], [], repo, record_locs=True, third_party=third_party)
     return out[0], info["locs"][0]
+
+
+def trace_location_counts(call, repo, third_party=False):
+    """As trace_locations, plus how often each location was passed (for preemption at later occurrences, e.g. inside loops)."""
+    out, info = run_concurrently([call], [], repo, record_locs=True, third_party=third_party)
+    return out[0], info["locs"][0], {loc: n for (t, loc), n in info["loc_counts"].items() if t == 0}
